@@ -1,6 +1,8 @@
 (* C08 - a call invokes exactly the function that name resolution designates.
-   Statements only; proofs are in Cao.CompilerResolve, Cao.ResolveProofs, Cao.ResolveTree, Cao.CompilerCalls.  The specification is ResolveSpec.v (module
-   tree level, independent of the compiler model); the run-time half (which body runs, parameter
+   Statements only; proofs are in Cao.CompilerResolve, Cao.ResolveProofs (the four lookup rules),
+   Cao.ResolveTree (front end = tree), Cao.CompilerCalls (module level), Cao.CompilerLabels (labels),
+   Cao.C08Examples.  The specification is ResolveSpec.v (module tree level, independent of the compiler
+   model); the run-time half (CallFunction runs the code at the label of the pointer's handle, parameter
    binding, caller locals, return value) is checked by the C08 correspondence stream on the real Vm. *)
 From Coq Require Import List NArith ZArith.
 From Cao Require Import ListUtil Bits CardAst Bytecode Compiler StdlibGen ResolveSpec CompilerResolve ResolveProofs
@@ -211,6 +213,36 @@ Theorem C08_call_resolves :
               (filter is_call_instr is).
 Proof. exact compile_calls. Qed.
 Print Assumptions C08_call_resolves.
+
+(* the same, call by call: if the module compiles, every static call / function reference of every
+   function of the tree resolves under the specification (so: a name that resolves to nothing is a
+   compilation error), and the FunctionPointer of its target is in the program *)
+Theorem C08_every_call_resolves :
+  forall M o B,
+    compile M o = COk B ->
+    module_names_dotfree (with_std std_module M) = true ->
+    exists is, p_bytecode B = encode is /\
+      forall st name,
+        In st (tree_functions (with_std std_module M) []) ->
+        In (CPtr name) (flat_map card_items (f_cards (fs_fn st))) ->
+        exists pos ar, site_target (with_std std_module M) st name = Some (pos, ar) /\
+                       In (IFunctionPointer (handle_from_u64 (N.of_nat pos)) (N.of_nat ar mod two32)%N) is.
+Proof. exact compile_every_call_resolves. Qed.
+Print Assumptions C08_every_call_resolves.
+
+(* and conversely for the errors: compile returns InvalidJump / SuperLimitReached only because some
+   static call or function reference of the tree has exactly that outcome under the specification *)
+Theorem C08_resolve_error_is_unresolved_call :
+  forall M o e l,
+    compile M o = CErr e l -> is_resolve_err e = true ->
+    module_names_dotfree (with_std std_module M) = true ->
+    exists st name,
+      In st (tree_functions (with_std std_module M) []) /\
+      In (CPtr name) (flat_map card_items (f_cards (fs_fn st))) /\
+      ((e = EInvalidJump name /\ spec_resolve (with_std std_module M) (fs_path st) (fs_imports st) name = SNotFound) \/
+       (e = ESuperLimitReached /\ spec_resolve (with_std std_module M) (fs_path st) (fs_imports st) name = SSuperLimit)).
+Proof. exact compile_resolve_error. Qed.
+Print Assumptions C08_resolve_error_is_unresolved_call.
 
 (* ---- C08_label_points_to_body: labels[handle g] is the first byte of g's code ----
    label_keys_distinct is the decidable condition the compiler does not check: the 32-bit keys of all
